@@ -222,6 +222,17 @@ def m_frombuffer(interp, buf, dtype=float, count=-1, offset=0):
     if not interp.truth(r == 0):
         raise RaiseSig(ValueError("buffer size must be a multiple of element size"))
     fn = buf.fn
+    packed = buf.packed
+    if packed is not None and packed[0].dtype.itemsize == isz and packed[0].dtype.kind == dt.kind:
+        # bytes produced by tobytes() of an array with the same item size: element k of the result
+        # is element k (in tobytes order) of that array -- by lemma:le-bytes-roundtrip
+        # (compose(bytes(e)) == e), proved separately for each item size.
+        src, order = packed
+        c.trust("lemma:le-bytes-roundtrip (little-endian bytes of e recompose to e), proved as a separate unit")
+
+        def elem_packed(i):
+            return src.elem(*unravel(i, src.shape, order))
+        return SArr.from_fn(elem_packed, (q,), dt, writeable=False)
 
     def elem(i):
         u = le_compose(fn, i * isz, isz) if isz > 1 else fn(i)
